@@ -215,16 +215,17 @@ func (its *jsonPrimitive) getTargetByPaths(from jsonType, paths []string) (jsonT
 	for _, s := range paths {
 
 		switch node.getType() {
-		case TypeJSONElement:
-			its.common.L().Errorf("invalid target")
+		case TypeJSONElement: // a scalar has no child
+			return nil, errors.DatatypeNoTarget.New(its.common.L(), strings.Join(paths, "/"))
 		case TypeJSONObject:
 			node = node.(*jsonObject).getAsJSONType(s)
 		case TypeJSONArray:
+			arr := node.(*jsonArray)
 			pos, err := strconv.Atoi(s)
-			if err != nil {
+			if err != nil || pos < 0 || pos >= arr.size {
 				return nil, errors.DatatypeNoTarget.New(its.common.L(), "invalid path:%v from %v", s, strings.Join(paths, "/"))
 			}
-			node = node.(*jsonArray).getJSONType(pos)
+			node = arr.getJSONType(pos)
 		}
 
 		if node == nil || node.isGarbage() {
